@@ -114,6 +114,63 @@ theorem flat_sound (m : Metric V S) [DecidableEq S] (ord : m.sc.Ordered) (dim : 
     exact ⟨hp, by simpa using hnd⟩
   · exact hkk
 
+/-- one specification candidate: where it comes from -/
+theorem cands_mem (m : Metric V S) (live : List (Id × V)) (q' : V) (thr : S) (F : List Id)
+    (x : Hit S) (hx : x ∈ cands m live q' thr F) :
+    ∃ p ∈ live, x.id = p.1 ∧ x.score = m.dist q' p.2 ∧
+      eligible F p.1 = true ∧ thrSkip m.sc thr (m.dist q' p.2) = false := by
+  simp only [cands, List.mem_filterMap] at hx
+  obtain ⟨p, hp, hpx⟩ := hx
+  split at hpx
+  · cases hpx
+  · next he =>
+    split at hpx
+    · cases hpx
+    · next ht =>
+      injection hpx with hpx
+      subst hpx
+      exact ⟨p, hp, rfl, rfl, by simpa using he, by simpa using ht⟩
+
+/-- Exactness implies soundness: ANY exact top-k (C01 `flat_search_exact`, C13's IVF
+    theorems, C14 `pq_topk` / `ivfpq_topk`, C12's partial exactness) of the specification's
+    candidates meets C02's contract, with the metric's own distance as the score — provided
+    the live ids are distinct (C02's quantifier). -/
+theorem isTopK_cands_sound (m : Metric V S) [DecidableEq S] (live : List (Id × V))
+    (hn : (live.map (·.1)).Nodup) (q' : V) (thr : S) (F : List Id) (k : Int)
+    (res : List (Hit S)) (h : IsTopK m.sc.le k (cands m live q' thr F) res) :
+    Sound m.sc (fun v s => decide (s = m.dist q' v)) live F thr k res := by
+  obtain ⟨hsorted, ⟨rest, hperm, _⟩, hlen⟩ := h
+  have hmem : ∀ x ∈ res, x ∈ cands m live q' thr F := fun x hx =>
+    hperm.subset (List.mem_append_left _ hx)
+  have hcn : ((cands m live q' thr F).map (·.id)).Nodup := by
+    have hsub : ((cands m live q' thr F).map (·.id)).Sublist (live.map (·.1)) := by
+      simp only [cands]
+      apply filterMap_key_sublist (fun p : Id × V => p.1)
+      intro c hh hc
+      split at hc
+      · cases hc
+      · split at hc
+        · cases hc
+        · injection hc with hc; subst hc; rfl
+    exact hsub.nodup hn
+  refine ⟨?_, ?_, ?_, ?_, hsorted, ?_⟩
+  · intro x hx
+    obtain ⟨p, hp, h1, h2, _, _⟩ := cands_mem m live q' thr F x (hmem x hx)
+    exact ⟨p.2, by rw [h1]; exact hp, by simp [h2]⟩
+  · intro x hx
+    obtain ⟨p, _, h1, _, h3, _⟩ := cands_mem m live q' thr F x (hmem x hx)
+    rw [h1]; exact h3
+  · intro x hx
+    obtain ⟨p, _, _, h2, _, h4⟩ := cands_mem m live q' thr F x (hmem x hx)
+    rw [h2]; exact h4
+  · have : ((res ++ rest).map (·.id)).Nodup := (hperm.map (·.id)).nodup_iff.2 hcn
+    rw [List.map_append] at this
+    exact (List.nodup_append.1 this).1
+  · intro hk
+    rw [hlen]
+    unfold sanitizeK
+    split <;> omega
+
 /-- distinct add ids (the quantifier) give distinct stored ids -/
 theorem fresh_stored_nodup (m : Metric V S) (s : State V) (ops : List (Op V))
     (h0 : (s.vecs.map (·.1)).Nodup) (hfresh : FreshAdds ops)
